@@ -906,7 +906,15 @@ class Calendar(MutableTimeline[Event]):
             series_start_dt_tz = today_midnight + start_delta
             series_start_ts = int(series_start_dt_tz.timestamp())
 
-        series_end_ts = series_start_ts + pattern.duration_seconds
+        # The duration runs on the pattern's local clock, like that of every
+        # occurrence (a 24 h occurrence across a DST change is 23 or 25 hours of
+        # elapsed time): Google repeats the master's wall-clock span
+        series_end_ts = int(
+            (
+                datetime.fromtimestamp(series_start_ts, tz=pattern.zone)
+                + timedelta(seconds=pattern.duration_seconds)
+            ).timestamp()
+        )
 
         # All-day only if each occurrence is a whole day of the calendar: one DAY
         # long and starting at local midnight in the calendar's timezone
@@ -981,7 +989,7 @@ class Calendar(MutableTimeline[Event]):
             is_all_day=is_all_day,
             reminders=validated_reminders,
             start=series_start_ts,
-            end=series_start_ts + pattern.duration_seconds,
+            end=series_end_ts,
         )
 
         return [WriteResult(success=True, event=result_event, error=None)]
